@@ -128,6 +128,7 @@ def r20_1(ctx):
     # 9. grid names
     f = P.own_method("Stage", "subject_to")
     has_guard(ctx, f, lambda t, k: t.startswith("gridnotin[") and k == "raise", "Stage.subject_to: unknown grid rejected", "unknown grid name", "if grid not in [...]: raise")
+    has_guard(ctx, f, lambda t, k: t == "grid=='point'" and k == "raise", "Stage.subject_to: a signal expression on grid 'point' is rejected", "path constraint declared as a point constraint", "if is_signal(constr): if grid == 'point': raise", top_level=False)
     f = P.own_method("Stage", "_sample")
     sc = ctx.scope(f)
     chain = [i for i in walk_no_nested(f.node) if isinstance(i, ast.If) and norm_text(i.test).startswith("grid==")]
